@@ -28,7 +28,7 @@ Proof.
         + simpl. rewrite E. reflexivity.
         + left. exact H1.
         + right. destruct H1 as [H1|H1]; [exfalso; apply Hb; exact H1|exact H1]. }
-    destruct a as [w|o| | | | | | | | | | | | | ];
+    destruct a as [w|o| | | | | | | | | | | | | | ];
       try (simpl; apply Hother; [intros o' Hc; discriminate|intros Hc; discriminate]).
     + destruct w; try (simpl; apply Hother; [intros o' Hc; discriminate|intros Hc; discriminate]).
       simpl. split.
@@ -55,7 +55,7 @@ Proof.
         + inversion E as [[E1 E2]]. exfalso. apply (Ha o). exact E1.
         + inversion E as [[E1 E2]]. exact (H l1 o l2 E2 Hc).
       - intros H l1 o l2 E Hc. apply (H (a :: l1) o l2); [simpl; rewrite E; reflexivity|exact Hc]. }
-    destruct a as [w|o| | | | | | | | | | | | | ]; try (simpl; apply Hother; intros o' Hc; discriminate).
+    destruct a as [w|o| | | | | | | | | | | | | | ]; try (simpl; apply Hother; intros o' Hc; discriminate).
     simpl. rewrite Bool.andb_true_iff, IH. split.
     + intros [Hh H] l1 o' l2 E Hc. destruct l1 as [|x l1]; simpl in E.
       * inversion E as [[E1 E2]]. subst o' l2. rewrite Hc in Hh.
@@ -171,7 +171,19 @@ Ltac ext_solve :=
 
 (* del_claim *)
 Lemma del_claim_idem p : del_claim (del_claim p) = del_claim p.
-Proof. destruct p as [c|]; simpl; [|reflexivity]. destruct (c_fin c) eqn:E; simpl; [rewrite E; reflexivity|reflexivity]. Qed.
+Proof.
+  destruct p as [c|]; simpl; [|reflexivity].
+  destruct (c_fin c || c_ffin c)%bool eqn:E; simpl; [rewrite E; reflexivity|reflexivity].
+Qed.
+
+Lemma set_ffin_cases p b : set_ffin p b = None \/ exists c, p = Some c /\ set_ffin p b = Some (cl_ffin c b).
+Proof.
+  unfold set_ffin. destruct p as [c|]; simpl; [|left; reflexivity].
+  destruct (c_del c && negb b && negb (c_fin c))%bool; [left; reflexivity|right; exists c; split; reflexivity].
+Qed.
+
+Lemma set_ffin_none b : set_ffin None b = None.
+Proof. reflexivity. Qed.
 
 (* how a phase may change the stored claim: not at all, or by API Delete *)
 Definition pc_rel (p p' : option claim) : Prop := p' = p \/ p' = del_claim p.
@@ -370,7 +382,7 @@ Proof. unfold merge. repeat bm; simpl; split; reflexivity. Qed.
 (* ---------------------------------------------------------------- one reconcile, summarised *)
 
 Lemma god_del_claim p : gone_or_deleting (del_claim p) = true.
-Proof. destruct p as [c|]; simpl; [|reflexivity]. destruct (c_fin c); reflexivity. Qed.
+Proof. destruct p as [c|]; simpl; [|reflexivity]. destruct (c_fin c || c_ffin c)%bool; reflexivity. Qed.
 
 Lemma god_pc_rel p p' : pc_rel p p' -> gone_or_deleting p = true -> gone_or_deleting p' = true.
 Proof. intros [->| ->] H; [exact H|apply god_del_claim]. Qed.
@@ -391,7 +403,7 @@ Lemma guarded_app_nocreate have l m :
   nocreate l = true -> create_guarded_b have m = true -> create_guarded_b have (l ++ m) = true.
 Proof.
   revert have. induction l as [|a l IH]; intros have; simpl; [auto|]. rewrite Bool.andb_true_iff. intros [Ha Hl] Hm.
-  destruct a as [w| | | | | | | | | | | | | | ]; simpl in Ha; try discriminate; try (apply IH; assumption).
+  destruct a as [w| | | | | | | | | | | | | | | ]; simpl in Ha; try discriminate; try (apply IH; assumption).
   destruct w; try (apply IH; assumption).
   apply IH; [exact Hl|]. apply create_guarded_b_iff, create_guarded_true.
 Qed.
